@@ -6,7 +6,7 @@ Tie:    harness/simdrv.c <-> Drivers/SimMain.lean on generated scenarios (profil
 """
 import simcheck
 
-PROFILES = ['lifecycle', 'mixed', 'resource', 'pool', 'timers', 'timerso']
+PROFILES = ['lifecycle', 'mixed', 'resource', 'pool', 'timers', 'timerso', 'coincide']
 
 
 def run(chk):
